@@ -60,11 +60,11 @@ def run(res, tier, seed):
         print('SPEC-DRIFT property=C17 size-class transcription disagrees with the code on %d sizes (properties still hold)' % drift)
     # random API sequences on logical threads
     n = 30 if not thorough else 600
-    jobs = [(1, 90), (2, 70), (3, 60), (3, 60), (4, 50)] + ([(2, 120), (4, 80), (4, 80)] if thorough else [])
+    jobs = [(1, 90), (2, 70), (3, 60), (3, 60), (4, 50), (4, 0), (4, 0), (4, 0)] + ([(2, 120), (4, 80), (4, 80), (4, 0)] if thorough else [])     # ops 0 = the orphaned-slab scenario
     cmds = []; tfs = []
     for k, (N, ops) in enumerate(jobs):
         t = os.path.join(vlib.BUILD, 'traces', 'c17-heap-%d-%d.ndjson' % (k, os.getpid())); tfs.append(t)
-        cmds.append([exe, 'heap', t, str(n), str(seed * 9001 + k * 131), str(N), str(ops)])
+        cmds.append([exe, 'heap', t, str(n if ops else n * 8), str(seed * 9001 + k * 131), str(N), str(ops)])
     ps = vlib.run_parallel(cmds, timeout=3000)
     execs = []; steps = 0; nexec = 0
     for pp, t, c in zip(ps, tfs, cmds):
